@@ -116,7 +116,7 @@ pub fn run(ctx: &Ctx) -> usize {
 		violations += 1;
 	}
 	let cfg = cfg_for(ctx);
-	if run_dna(ctx, "dna", ctx.n(4000, 200_000), dna_max(ctx), |dna, counting| check(ctx, &model_from_dna(dna, &cfg), "dna", counting)).is_some() {
+	if run_dna(ctx, "dna", ctx.n(40_000, 2_000_000), dna_max(ctx), |dna, counting| check(ctx, &model_from_dna(dna, &cfg), "dna", counting)).is_some() {
 		violations += 1;
 	}
 	violations
